@@ -15,6 +15,8 @@ impl GenerationPass for EliminateDeadCodeDirectionsPass {
         let mut changed = true;
         while changed {
             changed = false;
+            #[cfg(rajanmaghera_riscv_analysis_verif)]
+            crate::verif_hooks::sweep(crate::verif_hooks::Pass::DeadCode);
             let old = nodes.clone();
             for node in nodes {
                 if node.is_return() || node.is_any_entry() || node.might_terminate() {
